@@ -33,6 +33,8 @@ mod decision_tracker;
 mod diagnostics;
 mod encoding;
 pub(crate) mod variable_map;
+#[cfg(feature = "verif-hooks")]
+pub mod verif_hooks;
 mod watch_map;
 
 /// Describes the problem that is to be solved by the solver.
